@@ -567,7 +567,7 @@ bool Instance::configure_tx_txin() {
         }
         // put remainder on to-be-parsed stack
         for (size_t i = 0; i < wstack_to_stack; i++) {
-            push_del.push_back(strdup(HexStr(wstack[i]).c_str())); // TODO: use as is rather than hexing and dehexing
+            stack.push_back(wstack[i]); // as is: re-parsing the hex text reads e.g. 0x1234 as the decimal number 1234
         }
     } else {
         // legacy
